@@ -4,7 +4,7 @@
    GROUP BY, HAVING, ORDER BY, JOIN ON, function arguments, CASE operand / WHEN / THEN / ELSE, IN lists, BETWEEN
    bounds, CAST, sub-queries in FROM / IN / EXISTS / scalar position, CTE bodies, set-operation operands,
    INSERT values and INSERT ... SELECT, UPDATE assignments / FROM / WHERE, DELETE USING / WHERE, MERGE source /
-   ON / WHEN conditions / SET values / INSERT values; the query of CREATE VIEW / CREATE MATERIALIZED VIEW, the
+   ON / WHEN conditions / SET values / INSERT values; the query of CREATE VIEW / CREATE MATERIALIZED VIEW / EXPLAIN, the
    predicate of a partial index, DEFAULT values and CHECK conditions of CREATE TABLE).  [subs] is structurally
    recursive: positions at any depth, in particular the operands at the bottom of a long flat operator chain. *)
 From Coq Require Import List String.
@@ -85,4 +85,5 @@ with subs (s : mstmt) : list msub :=
   | MCreateView _ _ q | MCreateMView _ _ q => subs q
   | MCreateIndex _ _ _ wh => subs_opt wh
   | MCreateTable _ cols tcs => subs_coldefs cols ++ subs_tabcons tcs
+  | MExplain q => subs q
   end.
